@@ -218,6 +218,40 @@ pub async fn run(out: &mut Out) {
         out.stat("helper_unavailable_history");
     }
 
+    // ---- (b'') a verdict is reused only until it expires, however often it is looked up meanwhile: the account is revoked
+    // right after the first verdict; lookups every 0.6 s (cache timeout 1 s) must be refused from 1.2 s on
+    {
+        let _ = std::fs::create_dir_all("/verif/out/C07");
+        let acct = format!("/verif/out/C07/account-carol{}", std::process::id());
+        let user = format!("carol{}", std::process::id());
+        std::fs::write(&acct, b"x").unwrap();
+        let mut auth: crate::common::auth::AuthData = serde_yaml::from_str("required: true\ncmd: [\"/verif/harness/authcmd2.sh\", \"#USER#\", \"#PASS#\"]\ncache:\n  timeout: 1").unwrap();
+        auth.init().await.unwrap();
+        let t0 = std::time::Instant::now();
+        let mut verdicts = String::new();
+        for (i, at) in [0u64, 600, 1250, 1850, 2450].iter().enumerate() {
+            let el = t0.elapsed().as_millis() as u64;
+            if *at > el {
+                tokio::time::sleep(std::time::Duration::from_millis(*at - el)).await;
+            }
+            let v = auth.check(&Some((user.clone(), "pw".to_string()))).await;
+            verdicts.push(if v { '1' } else { '0' });
+            if i == 0 {
+                let _ = std::fs::remove_file(&acct); // revoked
+                if !v {
+                    out.oracle_fail("wrong-verdict", "a valid account was refused");
+                }
+            }
+            // the verdict of t = 0 expires at 1000 ms: from then on the helper is asked again and says no
+            if *at >= 1200 && v {
+                out.oracle_fail("routed-without-valid-credentials", &format!("the account was revoked at 0 ms, the cached verdict (timeout 1 s) is still honoured at {} ms", at));
+            }
+        }
+        // (the lookup at 600 ms is a cache hit in the code and in the model: within the timeout of the verdict of 0 ms)
+        out.case("HR 1 0,600,1250,1850,2450", &format!("verdicts={}", verdicts));
+        out.stat("revocation_history");
+    }
+
     // ---- (c) TLS client certificates on the http / socks / quic listeners
     for kind in ["http", "socks", "quic"] {
         for policy in ["absent", "optional", "required", "required-emptyca", "required-keyonlyca"] {
